@@ -820,10 +820,14 @@ def cases(draw, p):
     rnd.fw_spelling = draw(st.sampled_from([0, 0, 1, 2, 3]))
     rnd.start(inch=bool(p["inch"] and not exact and draw(st.integers(0, 4)) == 0),
               z0=bool(p.get("z0_start", True) and draw(st.integers(0, 5)) == 0))
-    for o in abstract:
-        rnd.op(o)
+    # a long print now and then: the same abstract ops over and over (each pass renders differently, from where the last one
+    # ended) - hundreds to a few thousand commands on one filter object
+    reps = draw(st.sampled_from([1] * int(p.get("long", 200)) + [10, 25])) if p.get("long", 200) else 1
+    for _ in range(reps):
+        for o in abstract:
+            rnd.op(o)
     via = draw(st.sampled_from(["direct", "direct", "plugin"])) if p.get("via_plugin", True) else "direct"
     spell = draw(st.sampled_from(["plain"] * 5 + ["compact", "plus"])) if p.get("spell", True) else "plain"
     return {"config": cfg, "regions": regions, "prog": respell_prog(rnd.prog, spell), "via": via,
             "meta": {"rewrites": rnd.rewrites, "fw": fw, "delta": delta, "exact": exact,
-                     "excluded_known": rnd.excluded_known}}
+                     "excluded_known": rnd.excluded_known, "reps": reps}}
